@@ -118,11 +118,12 @@ def splitFmt (code : String) : Option (String × String) :=
   else none
 
 def errText (code : String) (e : PyErr) : String :=
-  if e.cls == "NameError" || e.cls == "UnboundLocalError" then
-    "{ERROR: undefined variable '" ++ code ++ "'}"
-  else if e.cls == "TypeError" || e.cls == "AttributeError" then
-    "{ERROR: " ++ code ++ " - " ++ e.msg ++ "}"
-  else "{ERROR: " ++ code ++ " - " ++ e.cls ++ ": " ++ e.msg ++ "}"
+  "{ERROR: " ++
+    (if e.cls == "NameError" || e.cls == "UnboundLocalError" then
+      "undefined variable '" ++ code ++ "'}"
+    else if e.cls == "TypeError" || e.cls == "AttributeError" then
+      code ++ " - " ++ e.msg ++ "}"
+    else code ++ " - " ++ e.cls ++ ": " ++ e.msg ++ "}")
 
 def renderExpr (S : Sem) (ctx : Env S.V) (code : String) : String :=
   match splitFmt code with
